@@ -117,6 +117,40 @@ def register(op):
             raise Modified()
         return r
 
+    @op("rotate_forms")
+    def _(a):
+        """rotate_complex_once / rotate_complex_db with the arguments in another legitimate FORM.
+        [fn, seq, sst, sform, tform]; the structure (tform) as list / tuple / str / one-shot iterator / generator, or
+        `complex`: sequence and structure are what a real ComplexS hands out (list(cx.sequence) and the ITERATOR
+        cx.structure, domain objects as members); the sequence (sform) as list or, for rotate_complex_db, str.
+        The result is materialised and domain objects are replaced by their names."""
+        from dsdobjects import complex_utils as cu
+        fn, seq, sst, sform, tform = a
+        seq, sst = list(seq), list(sst)
+        cx = None
+        if tform == "complex":
+            cx, _sq, _st, _doms = build(seq, sst)
+            sq, st = list(cx.sequence), cx.structure
+        else:
+            st = {"list": list, "tuple": tuple, "str": "".join, "iter": lambda x: iter(list(x)),
+                  "gen": lambda x: (c for c in list(x))}[tform](sst)
+            if sform == "str":
+                if fn != "rotate_complex_db" or any(len(x) != 1 for x in seq):
+                    raise ValueError("harness: a str sequence needs rotate_complex_db and one-character names")
+                sq = "".join(seq)
+            else:
+                sq = list(seq)
+        if fn == "rotate_complex_once":
+            r = cu.rotate_complex_once(sq, st)
+            out = [names(list(r[0])), list(r[1])]
+        elif fn == "rotate_complex_db":
+            out = [[names(list(x)), list(y)] for x, y in cu.rotate_complex_db(sq, st)]
+        else:
+            raise ValueError("harness: rotate_forms " + str(fn))
+        if cx is not None and (names(cx._sequence) != seq or list(cx._structure) != sst):
+            raise Modified()
+        return out
+
     @op("obj_size")
     def _(a):
         seq, sst = a
